@@ -65,6 +65,7 @@ def c01(ck, thorough):
     product(ck, "c01", fams, full=thorough, shards=4, mks=kinds)
     calls(ck, "c01_enum", "enum", scale=2 if thorough else 1, mks=kinds, an="no", flav="find,iter")
     calls(ck, "c01_rand", "rand", scale=10 if thorough else 2, mks=kinds, an="no", flav="find,iter")
+    calls(ck, "c01_nested", "nested", scale=2 if thorough else 1, mks=kinds, an="no", flav="find,iter")
     ck.extra["rule"] = ("model: all pattern lists of <=2 patterns of <=3 bytes over a 2-letter alphabet x all "
                         "haystacks x all spans; implementation: product of every real automaton with the "
                         "spec automaton (all haystacks), calls validated against the declarative oracle")
@@ -88,7 +89,7 @@ def c03(ck, thorough):
     mc(ck, "ACOverlap", "c03_overlap", overlap_consts([False], [False, True], thorough),
        ["OverlapCorrect", "StateSane"], view="View")
     fams = ["f23", "rand:%d:10:6" % (400 if thorough else 60)] + (["f33"] if thorough else [])
-    product(ck, "c03", fams, full=thorough, shards=4, mks=["std"])
+    product(ck, "c03", fams + ["dups"], full=thorough, shards=4, mks=["std"])
     calls(ck, "c03_enum", "enum", scale=2, mks=["std"], an="no", flav="overlap")
     calls(ck, "c03_rand", "rand", scale=10 if thorough else 2, mks=["std"], an="no", flav="overlap")
 
@@ -193,6 +194,7 @@ def c09(ck, thorough):
     product(ck, "c09", fams, full=thorough, shards=4, mks=ALLK)
     calls(ck, "c09_enum", "enum", scale=2 if thorough else 1, mks=ALLK, an="yes", flav="all")
     calls(ck, "c09_rand", "rand", scale=10 if thorough else 2, mks=ALLK, an="yes", flav="all")
+    calls(ck, "c09_nested", "nested", scale=2 if thorough else 1, mks=ALLK, an="yes", flav="all")
 
 
 def c14(ck, thorough):
@@ -203,6 +205,8 @@ def c14(ck, thorough):
     calls(ck, "c14_enum", "enum", scale=2 if thorough else 1, mks=ALLK, an="both",
           flav="find,early,is_match")
     calls(ck, "c14_rand", "rand", scale=10 if thorough else 2, mks=ALLK, an="both",
+          flav="find,early,is_match")
+    calls(ck, "c14_nested", "nested", scale=2 if thorough else 1, mks=ALLK, an="both",
           flav="find,early,is_match")
 
 
@@ -224,7 +228,7 @@ def c17(ck, thorough):
     """purity / sharing across threads"""
     mc(ck, "ACShared", "c17_shared",
        {"Clients": "{1, 2, 3}" if thorough else "{1, 2}", "Sigma": tla_set([1, 2]), "MaxPatLen": 2,
-        "MaxHay": 2, "Kinds": tla_set(ALLK), "CallsPerClient": 2 if thorough else 1},
+        "MaxHay": 2 if not thorough else 1, "Kinds": tla_set(ALLK), "CallsPerClient": 1},
        ["Pure", "Deterministic"], ["Immutable"])
     harness_calls(ck, "c17_threads", "threads", scale=4 if thorough else 1, shards=6, what="threads")
     ck.extra["rule"] = ("2..16 real threads share one searcher (and clones), start on a barrier and run shuffled call "
